@@ -9,6 +9,17 @@ MODELLED = ('Trusted: Coq 8.16.1 kernel (no axioms: every theorem in coq/Props/%
             'the Python harness abstraction/canonicalisation. ')
 
 CHECKS = {
+    'C08': dict(
+        text='Theorems: closure of the shared discovery/verification logic (as C01), the SQL string-literal quoting '
+             'round trip for every expression text, and for each perturbation class (beyond min/max, wrong sign, '
+             'shorter/longer string, extra null, duplicate) that one added violating row falsifies the verifier. Real '
+             'SQLite tables (quotes, backslashes, unicode, all-null, empty) are discovered and verified, then every '
+             'single-row perturbation is applied and must be reported for its constraint.',
+        note='SQLite\'s evaluation of the generated SQL and the type-name mapping are not modelled; the new-category and '
+             'unmatched-string perturbations are covered by the run-time oracle only.',
+        technique='Coq proof (closure, sql_literal_roundtrip, perturbation corollaries of the C02 iff-theorems) + '
+                  'perturbation oracle on real SQLite tables',
+        design='7 C08'),
     'C09': dict(
         text='Theorems at the dictionary level for any value type: write-load-write is idempotent, unknown kinds and # '
              'keys never affect what is written for the other kinds, and the written form depends only on the surviving '
